@@ -54,7 +54,6 @@ Proof.
   apply (sweep_long_pl D E W) in H; [|discriminate]. eapply plx_trans; [exact E1|]. eapply plx_trans; [|exact H]. plx_r.
 Qed.
 
-Definition good (s : db) (x : ref) : Prop := dead s x /\ x < next s.
 Definition eok (s : db) : Prop := forall x, eref s x -> good s x.
 Definition lok (s : db) (l : list ref) : Prop := forall x, In x l -> good s x.
 Definition TT : ref -> Prop := fun _ => True.
